@@ -33,6 +33,14 @@ Proof.
 Qed.
 Lemma dur_min_cases a b : dur_min a b = a \/ dur_min a b = b.
 Proof. unfold dur_min. destruct (dur_ltb b a); auto. Qed.
+Lemma dur_max_cases a b : dur_max a b = a \/ dur_max a b = b.
+Proof. unfold dur_max. destruct (dur_ltb b a); auto. Qed.
+Lemma dur_max_ge_r a b : dur_le b (dur_max a b).
+Proof.
+  unfold dur_max. destruct (dur_ltb b a) eqn:E; [apply dur_ltb_le; assumption | apply dur_le_refl].
+Qed.
+Lemma dur_max_le a b c : dur_le a c -> dur_le b c -> dur_le (dur_max a b) c.
+Proof. intros Ha Hb. destruct (dur_max_cases a b) as [E|E]; rewrite E; assumption. Qed.
 
 Lemma fold_min_in r : forall x, fold_left dur_min r x = x \/ In (fold_left dur_min r x) r.
 Proof.
@@ -70,8 +78,15 @@ Qed.
 (* ------------------------------------------------------------------ min <= poke *)
 Theorem next_le_poke ps n : dur_le (next_task_time ps n) poke_time.
 Proof.
-  unfold next_task_time.
+  unfold next_task_time. apply dur_max_le; [|unfold dur_le, dzero, poke_time; cbn [sec nanosec]; lia].
   repeat (eapply dur_le_trans; [apply dur_min_le_l|]). apply dur_le_refl.
+Qed.
+(* the clamp: the minimum is never negative *)
+Theorem next_nonneg ps n : 0 <= sec (next_task_time ps n).
+Proof.
+  unfold next_task_time. match goal with |- 0 <= sec (dur_max ?a dzero) => pose proof (dur_max_ge_r a dzero) as H;
+    remember (dur_max a dzero) as m end.
+  unfold dur_le, dzero in H; cbn [sec nanosec] in H. lia.
 Qed.
 
 (* every value that can come out of the minimum satisfies Q when poke_time and all the
@@ -91,7 +106,7 @@ Qed.
 (* ------------------------------------------------------------------ well-formed snapshots *)
 Definition opt_all {A} (Q : A -> Prop) (o : option A) : Prop := match o with Some x => Q x | None => True end.
 Definition wf_reader (r : reader_s) : Prop :=
-  opt_all normalized (r_deadline r) /\ Forall normalized (r_owned r).
+  opt_all normalized (r_deadline r) /\ Forall normalized (r_last r).
 Definition wf_writer (w : writer_s) : Prop :=
   opt_all normalized (w_deadline w) /\ Forall (opt_all normalized) (w_last w) /\
   opt_all normalized (w_lifespan w) /\ Forall (opt_all normalized) (w_changes w) /\
@@ -177,6 +192,14 @@ Theorem next_normalized ps n :
   Forall wf_part ps -> wf_nows n -> normalized (next_task_time ps n).
 Proof.
   intros Hps (N1 & N2 & N3 & N4 & N5 & N6). rewrite Forall_forall in Hps. unfold next_task_time.
+  destruct (dur_max_cases (dur_min (dur_min (dur_min (dur_min (dur_min (dur_min poke_time
+      (unwrap_or (factory_min tu_missed_reader_deadline (n_rd n) ps) poke_time))
+      (unwrap_or (factory_min tu_missed_writer_deadline (n_wd n) ps) poke_time))
+      (unwrap_or (factory_min tu_stale_participant (n_sp n) ps) poke_time))
+      (unwrap_or (factory_min tu_stale_writer_sample (n_ws n) ps) poke_time))
+      (unwrap_or (factory_min tu_pending_writer_sample_timeout (n_pw n) ps) poke_time))
+      (unwrap_or (factory_min tu_participant_announcement (n_pa n) ps) poke_time)) dzero) as [E|E];
+    rewrite E; [|apply dzero_norm].
   repeat apply dur_min_pres; try apply poke_norm;
     (apply unwrap_pres; [|apply poke_norm]); apply factory_min_pres; intros p m Hp Hm;
     pose proof (Hps _ Hp) as Hwf; destruct Hwf as (W1 & W2 & W3 & W4 & W5).
@@ -196,132 +219,26 @@ Proof.
   rewrite (Z.mod_small s) by lia. rewrite (Z.div_small n) by lia. rewrite (Z.mod_small n) by lia.
   rewrite Z.add_0_r. destruct (s <=? 18446744073709551615) eqn:E; [reflexivity | apply Z.leb_gt in E; lia].
 Qed.
-Lemma to_core_negative d : normalized d -> sec d < 0 ->
-  to_core_ns d = Ok ((two64 + sec d) * NS + nanosec d) /\ 18446744071000000000 * NS <= (two64 + sec d) * NS + nanosec d.
-Proof.
-  destruct d as [s n]. unfold normalized, to_core_ns, in_i32, i32_min, i32_max, wrap_u64, two64, u64_max, NS;
-    cbn [sec nanosec]. intros [Hs Hn] H0.
-  assert (E : s mod 18446744073709551616 = 18446744073709551616 + s).
-  { symmetry. apply Z.mod_unique with (q := -1); lia. }
-  rewrite E. rewrite (Z.div_small n) by lia. rewrite (Z.mod_small n) by lia. rewrite Z.add_0_r.
-  destruct (18446744073709551616 + s <=? 18446744073709551615) eqn:E2; [split; [reflexivity | lia] | apply Z.leb_gt in E2; lia].
-Qed.
-
-(* C31, first clause, on the snapshot model: outside the class "the minimum is negative"
-   the requested delay is at most the poke period — for all participants, entities,
-   timestamps and all six clock readings *)
-Theorem sleep_le_poke_unless_negative ps n :
-  Forall wf_part ps -> wf_nows n -> negative_sleep ps n = false ->
+(* C31, first clause, on the snapshot model: the requested delay is at most the poke period
+   and never negative — for all participants, entities, timestamps (overdue or not) and all
+   six clock readings *)
+Theorem sleep_le_poke ps n :
+  Forall wf_part ps -> wf_nows n ->
   exists d, requested_delay ps n = Ok d /\ 0 <= d <= POKE_NS.
 Proof.
-  intros Hps Hn Hneg. unfold negative_sleep in Hneg. apply Z.ltb_ge in Hneg.
+  intros Hps Hn. pose proof (next_nonneg ps n) as Hneg.
   pose proof (next_normalized ps n Hps Hn) as Hnorm. pose proof (next_le_poke ps n) as Hle.
   unfold requested_delay. rewrite (to_core_nonneg _ Hnorm Hneg). eexists; split; [reflexivity|].
   destruct Hnorm as [_ Hns]. unfold dur_le, poke_time in Hle; cbn [sec nanosec] in Hle.
   unfold POKE_NS, NS in *. lia.
 Qed.
 
-(* inside the class the worker asks for more than 1.8e19 seconds *)
-Theorem negative_sleep_is_huge ps n :
-  Forall wf_part ps -> wf_nows n -> negative_sleep ps n = true ->
-  exists d, requested_delay ps n = Ok d /\ 18446744071000000000 * NS <= d.
-Proof.
-  intros Hps Hn Hneg. unfold negative_sleep in Hneg. apply Z.ltb_lt in Hneg.
-  pose proof (next_normalized ps n Hps Hn) as Hnorm.
-  destruct (to_core_negative _ Hnorm Hneg) as [E H]. unfold requested_delay. rewrite E. eauto.
-Qed.
-
-(* the class is inhabited: one writer with a 100 ms deadline whose instance was last written
-   250 ms ago (e.g. write_w_timestamp with an old timestamp; the check re-arms by one period
-   only) *)
-Definition witness_part : part_s :=
+(* an item that is already overdue makes the worker run again at once (delay 0) *)
+Definition overdue_part : part_s :=
   mkP true (Some (mkdur 10 0)) (mkdur 5 0) [] []
       [mkW (Some (mkdur 0 100000000)) [Some (mkdur 9 750000000)] None [] None].
-Lemma norm_small s n : -2147483648 <= s <= 2147483647 -> 0 <= n < 1000000000 -> normalized (mkdur s n).
-Proof. unfold normalized, in_i32, i32_min, i32_max, NS; cbn [sec nanosec]. tauto. Qed.
-Lemma witness_wf : Forall wf_part [witness_part] /\ wf_nows (same_now (mkdur 10 0)).
-Proof.
-  split.
-  - constructor; [|constructor]. unfold witness_part, wf_part, wf_writer; cbn [p_last_ann p_interval p_disc p_readers p_writers].
-    repeat split; try constructor; cbn [opt_all w_deadline w_last w_lifespan w_changes w_pending];
-      repeat split; repeat constructor; cbn [opt_all]; try exact I; try (apply norm_small; lia).
-  - unfold wf_nows, same_now; cbn [n_rd n_wd n_sp n_ws n_pw n_pa]. repeat split; apply norm_small; lia.
-Qed.
-Theorem sleep_le_poke_refuted :
-  exists ps n d, Forall wf_part ps /\ wf_nows n /\ requested_delay ps n = Ok d /\ POKE_NS < d.
-Proof.
-  exists [witness_part], (same_now (mkdur 10 0)), 18446744073709551615850000000.
-  destruct witness_wf as [H1 H2].
-  split; [assumption | split; [assumption | split; vm_compute; reflexivity]].
-Qed.
-
-(* ------------------------------------------------------------------ nothing overdue => not negative *)
-Lemma dur_sub_pos a b : normalized a -> normalized b -> dur_leb a b = false -> 0 <= sec (dur_sub a b).
-Proof.
-  destruct a as [sa na], b as [sb nb].
-  unfold normalized, dur_leb, dur_sub, in_i32, i32_min, i32_max, NS; cbn [sec nanosec].
-  intros [Ha Hna] [Hb Hnb] H. apply orb_false_iff in H. destruct H as [H1 H2]. apply Z.ltb_ge in H1.
-  apply andb_false_iff in H2.
-  destruct (na - nb <? 0) eqn:E; cbn [sec]; [apply Z.ltb_lt in E | apply Z.ltb_ge in E];
-    unfold sat_i32, i32_min, i32_max.
-  - assert (sb < sa) by (destruct H2 as [H2|H2]; [apply Z.eqb_neq in H2 | apply Z.leb_gt in H2]; lia). lia.
-  - lia.
-Qed.
-Lemma dur_new_id d : normalized d -> dur_new (sec d) (nanosec d) = d.
-Proof. destruct d as [s n]. intros [H1 H2]. cbn [sec nanosec]. apply dur_new_normalized; assumption. Qed.
-Lemma time_sub_pos a b : normalized a -> normalized b -> dur_ltb b a = true -> 0 <= sec (time_sub a b).
-Proof.
-  intros Ha Hb H. unfold time_sub. rewrite (dur_new_id a Ha), (dur_new_id b Hb).
-  apply dur_sub_pos; try assumption. unfold dur_ltb in H. apply negb_true_iff in H. exact H.
-Qed.
-
-Lemma nonneg_sec d : nonneg d = true <-> 0 <= sec d.
-Proof. unfold nonneg. apply Z.leb_le. Qed.
-
-Theorem not_negative_when_nothing_overdue ps n :
-  Forall wf_part ps -> wf_nows n -> all_nonneg ps n = true -> negative_sleep ps n = false.
-Proof.
-  intros Hps (N1 & N2 & N3 & N4 & N5 & N6) Hall. unfold negative_sleep. apply Z.ltb_ge.
-  unfold all_nonneg in Hall. rewrite forallb_forall in Hall. rewrite Forall_forall in Hps.
-  unfold next_task_time.
-  repeat apply (dur_min_pres (fun d => 0 <= sec d)); try (cbn; lia);
-    (apply (unwrap_pres (fun d => 0 <= sec d)); [|cbn; lia]);
-    apply (factory_min_pres (fun d => 0 <= sec d)); intros p m Hp Hm;
-    pose proof (Hps _ Hp) as Hwf; destruct Hwf as (W1 & W2 & W3 & W4 & W5);
-    pose proof (Hall _ Hp) as Hp'; repeat rewrite andb_true_iff in Hp';
-    destruct Hp' as ((((A1 & A2) & A3) & A4) & A5);
-    rewrite forallb_forall in A1, A2, A3, A4.
-  - unfold tu_missed_reader_deadline in Hm. apply min_list_in, in_somes, in_map_iff in Hm.
-    destruct Hm as [r [Hr Hin]]. specialize (A1 _ Hin). unfold tu_reader in Hr.
-    destruct (r_deadline r) as [dl|]; [|discriminate]. rewrite forallb_forall in A1.
-    apply min_list_in, in_map_iff in Hr. destruct Hr as [last [<- Hl]]. apply nonneg_sec, A1, Hl.
-  - unfold tu_missed_writer_deadline in Hm. apply min_list_in, in_somes, in_map_iff in Hm.
-    destruct Hm as [w [Hw Hin]]. specialize (A2 _ Hin). unfold tu_writer_deadline in Hw.
-    destruct (w_deadline w) as [dl|]; [|discriminate]. rewrite forallb_forall in A2.
-    apply min_list_in, in_map_iff in Hw. destruct Hw as [last [<- Hl]]. apply nonneg_sec, A2, Hl.
-  - unfold tu_stale_participant in Hm. apply min_list_in, in_map_iff in Hm.
-    destruct Hm as [d [<- Hin]]. apply nonneg_sec, A3, Hin.
-  - unfold tu_stale_writer_sample in Hm. apply min_list_in, in_somes, in_map_iff in Hm.
-    destruct Hm as [w [Hw Hin]]. specialize (A4 _ Hin). unfold tu_writer_sample in Hw.
-    destruct (w_lifespan w) as [ls|]; [|discriminate]. rewrite forallb_forall in A4.
-    apply min_list_in, in_map_iff in Hw. destruct Hw as [ts [<- Hl]]. apply nonneg_sec, A4, Hl.
-  - unfold tu_pending_writer_sample_timeout in Hm. apply min_list_in, in_somes, in_map_iff in Hm.
-    destruct Hm as [w [Hw Hin]]. rewrite Forall_forall in W5. destruct (W5 _ Hin) as (_ & _ & _ & _ & Hpe).
-    unfold tu_writer_pending in Hw. destruct (w_pending w) as [[e|]|]; try discriminate. cbn [opt_all] in Hpe.
-    destruct (dur_ltb (n_pw n) e) eqn:E; injection Hw as <-; [apply time_sub_pos; assumption | cbn; lia].
-  - unfold tu_participant_announcement in Hm. destruct (p_enabled p); [|discriminate].
-    destruct (p_last_ann p) as [la|]; [|injection Hm as <-; cbn; lia]. cbn [opt_all] in W1.
-    destruct (dur_leb (p_interval p) (time_sub (n_pa n) la)) eqn:E; injection Hm as <-; [cbn; lia|].
-    apply dur_sub_pos; [assumption | apply time_sub_norm; assumption | exact E].
-Qed.
-
-Corollary sleep_le_poke_when_nothing_overdue ps n :
-  Forall wf_part ps -> wf_nows n -> all_nonneg ps n = true ->
-  exists d, requested_delay ps n = Ok d /\ 0 <= d <= POKE_NS.
-Proof.
-  intros. apply sleep_le_poke_unless_negative; try assumption.
-  apply not_negative_when_nothing_overdue; assumption.
-Qed.
+Lemma overdue_delay_zero : requested_delay [overdue_part] (same_now (mkdur 10 0)) = Ok 0.
+Proof. vm_compute. reflexivity. Qed.
 
 (* ------------------------------------------------------------------ blocked write *)
 Lemma pending_timeout_bound P exp : forall wakes last,
